@@ -13,7 +13,7 @@ PROPS = {
     ),
     "C06": dict(
         units=["A1", "A2", "A3", "A4", "A6", "A7"],
-        quick_skip=[r"^a7_.*avx2_divide$", r"^a7_.*native_grid$", r"^a7_f32.*avx2"],
+        quick_skip=[r"^a7_u(8|16)x\d_avx2_divide$", r"^a7_.*native_grid$"],
         level="proof",
         level_text="Exact rounding of multiply and faithful, saturating divide are postconditions of the real arithmetic functions, "
                    "discharged by Verus for every 8-bit and every 16-bit (colour, alpha) pair (bit-vector and integer lemmas), the "
@@ -106,6 +106,7 @@ PROPS = {
     ),
     "C10": dict(
         units=["L1", "W", "K7", "K4", "K9"],
+        quick_skip=[r"^k9_(?!native|vertical_(sse4|avx2)_u8x3_w5|u8x4_avx2_one_row_w0)", r"^k7_u16x1_taps_fixed$"],
         level="model_checking",
         level_text="The conditional lemma (taps summing to 2^p + e with |e|*max < 2^(p-1) reproduce every uniform value exactly, any window "
                    "length) is PROVED by Verus over the fixed-point formula. Its premise is established on the real taps only for enumerated "
@@ -114,7 +115,8 @@ PROPS = {
         not_decided=["premise for Lanczos3 / Hamming / Gaussian", "premise for geometries beyond the enumerated ones", "float formats", "SIMD back-ends"],
     ),
     "C18": dict(
-        units=["L1", "W", "K7", "K9"],
+        units=["L1", "W", "K7", "K4", "K9"],
+        quick_skip=[r"^k9_(?!native|vertical_(sse4|avx2)_u8x3_w5|u8x4_avx2_one_row_w0)"],
         level="model_checking",
         level_text="Order preservation and no-overshoot for non-negative taps are PROVED by Verus over the fixed-point formula for any window "
                    "length; Box and Bilinear are proved non-negative for every f64. The tie kernel == formula and the partition premise "
@@ -162,7 +164,7 @@ PROPS = {
         not_decided=["buffers longer than 40 bytes / images larger than 2 pixels in the scratch harness", "clone() and reset_internal_buffers() (trivially return to a covered state)"],
     ),
     "C13": dict(
-        units=["G4", "P", "A6"],
+        units=["G4", "G7", "P", "A6"],
         level="model_checking",
         level_text="Kernels only observe a container through ImageView/ImageViewMut; G4 shows by address that owned, borrowed, cropped and "
                    "nested-cropped containers expose the same width x height matrix (bounded sizes, symbolic crop), and the nearest / alpha "
@@ -172,7 +174,7 @@ PROPS = {
     ),
     "C02": dict(
         units=["A7", "A8", "K5", "K9"],
-        quick_skip=[r"^a8_.*avx2", r"^a8_u8x2", r"^a8_f32x4", r"^a7_.*avx2_divide$", r"^a7_.*native_grid$", r"^k9_vertical_(sse4|avx2)_u8_w47", r"^k9_u8x3_avx2_four_rows"],
+        quick_skip=[r"^a8_.*avx2", r"^a8_u8x2", r"^a8_f32x4", r"^a7_u(8|16)x\d_avx2_divide$", r"^a7_.*native_grid$", r"^k9_vertical_(sse4|avx2)_u8_w47", r"^k9_u8x3_avx2_four_rows"],
         level="proof",
         level_text="Scope: the alpha kernels, the precision dispatch and (bounded) the u8 convolution kernels. The SSE4.1 / AVX2 u8 convolution kernels "
                    "(vertical u8 generic, u8x4, u8x3, u8x2 horizontal) are compared byte for byte with the portable kernels on concrete tap tables "
